@@ -1,9 +1,27 @@
 """C01 / C03 / C04: bounded stand-in of the mutator contracts (see mut.py)."""
+from .. import gen
+from ..harness import parallel
 from . import mut
 
 
 def run(prop, tier, only=None):
-    return mut.sweep(prop, tier)
+    total = mut.sweep(prop, tier)
+    if prop == "C01":
+        # "after any sequence of public mutating operations": also after one that was cut short by a user callback (predicate,
+        # sort key, mapper, id hook, node factory raising at its k-th invocation) -- the well-formedness clauses of the C13 sweep
+        from . import c13
+
+        n = 3 if tier == "quick" else 4
+        r = parallel(c13._cb_chunk, list(gen.plain_specs(n, min_n=1)), prop, prop=prop)
+        r.violations = [v for v in r.violations if "wf(T)" in v.clause]
+        total.merge(r)
+        total.bounds["mutating operations cut short by a raising callback"] = f"all plain forests with 1..{n} nodes x every operation taking a callback x every k; only the clauses 'wf(T) after ... raised' count here (the rest is C13's)"
+    return total
 
 
-replay = mut.replay
+def replay(witness, prop):
+    if witness.get("kind") in ("cb", "hook", "factory"):
+        from . import c13
+
+        return c13.replay(witness, prop)
+    return mut.replay(witness, prop)
